@@ -90,6 +90,15 @@ Theorem C17_cpp_fallback_popback_refuted :
 Proof. exact fallback_popback_refuted. Qed.
 Print Assumptions C17_cpp_fallback_popback_refuted.
 
+(* byte level: the bytes of a run of items written back to back determine the items - no item's bytes depend on, or can be
+   re-split into, its neighbours' (the encoder is prefix-free for every type) *)
+From YV Require Import Proofs.BinaryProofs Proofs.BinaryInjective.
+Theorem C17_item_bytes_self_delimiting : forall t xs ys,
+  forallb (has_type t) xs = true -> forallb (has_type t) ys = true -> length xs = length ys ->
+  concat (map (enc t) xs) = concat (map (enc t) ys) -> xs = ys.
+Proof. exact enc_items_inj. Qed.
+Print Assumptions C17_item_bytes_self_delimiting.
+
 Example C17_hyp_sat :
   forallb (forallb (has_type (TMap (TPrim PString) (TPrim PInt32))))
     [[VMapv [(VStr [97], VInt 1)]]; []; [VMapv [(VStr [98], VInt 2)]; VMapv []]] = true.
